@@ -246,6 +246,24 @@ def main(argv):
     chk.cov['obligations'] += 1
     chk.cov['evaluations'] += chk.cov['mir_functions_scanned']
     native = chk.native()
+    # containers with a randomly seeded hasher: their iteration order is an input the caller does not control
+    unordered = sorted(set(re.findall(r'\b(HashMap|HashSet|RandomState)\b', chk.mir_text)))
+    chk.cov['randomly_seeded_containers'] = unordered
+    if unordered:
+        bad = None
+        for lvl in range(4):
+            ans = native.ask('repeat %d' % lvl)
+            chk.cov['translator_validation']['concrete_cases'] += 600
+            if ans.startswith('same=false') or ans.startswith('PANIC'):
+                bad = (lvl, ans)
+                break
+        if bad:
+            chk.failure({'key': 'C14/unordered-container', 'confirmed': True,
+                         'what': 'repeated builds of the same input differ (%s); the crate uses %s, whose iteration order changes from instance to instance' % (bad[1][11:200], unordered),
+                         'replay': {'request': 'repeat %d' % bad[0]}})
+        else:
+            chk.inconclusive.append('the crate uses %s (randomly seeded, iteration order not a function of the arguments), which the executor does not model; '
+                                    '2400 repeated native builds showed no difference' % unordered)
     if hidden or tls:
         # hidden state exists: the executor does not model atomics/locks; decide by native history and thread replay
         bad = None
